@@ -38,8 +38,8 @@ def run(tier, seed, replay=None):
     outcomes = {}
     samples = []
     batches = [("tlc", ["-queries", qf])]
-    for k in range(2 if quick else 6):
-        batches.append(("rand%d" % k, ["-n", 1000 if quick else 5000, "-seed", seed * 10 + k]))
+    for k in range(2 if quick else 12):
+        batches.append(("rand%d" % k, ["-n", 1000 if quick else 8000, "-seed", seed * 10 + k]))
     for tag, args in batches:
         recs = os.path.join(sc, "c14_%s.ndjson" % tag)
         vlib.vh(["c14", "-out", recs] + args, timeout=1700)
